@@ -42,8 +42,8 @@ ASSUMPTIONS = [
     "head()/tail() without n use the public setting dataiter.DEFAULT_PEEK_ITEMS",
 ]
 BOUND = {
-    "quick": "all lists of length 0..3 over 12 items (1885 lists) x all operations/arguments incl. the slice grid start,stop in {None,-n-1..n+1} x step in {None,1,2,-1}; chains to depth 2 from 6 start lists over a 70-operation alphabet",
-    "thorough": "all lists of length 0..4 over 12 items (22621 lists) x all operations/arguments incl. the full slice grid; chains to depth 3 from 6 start lists over a 70-operation alphabet",
+    "quick": "all lists of length 0..3 over 12 items (1885 lists) x all operations/arguments incl. the slice grid start,stop in {None,-n-1..n+1} x step in {None,1,2,-1}; chains to depth 2 from 6 start lists over a 69-operation alphabet",
+    "thorough": "all lists of length 0..4 over 12 items (22621 lists) x all operations/arguments incl. the full slice grid; chains to depth 3 from 6 start lists over a 69-operation alphabet",
 }
 TIME_CAP = {"quick": 240, "thorough": 2400}
 
@@ -102,7 +102,7 @@ RENAMES = [[["c", "a"]], [["c", "b"]], [["c", "a"], ["d", "b"]], [["a", "b"], ["
            [["c", "z"]], [["a", "a"]], [["a", "b"]]]
 MODIFIES = [[["a", "const7"]], [["a", "none"]], [["c", "get_a"]], [["a", "get_b"]], [["a", "a_inc"]],
             [["c", "attr_a"]], [["b", "nkeys"]], [["a", "const7"], ["c", "get_b"]], [["c", "const7"], ["d", "none"]]]
-MODIFY_IFS = [[["a", "const7"]], [["c", "get_a"]], [["a", "a_inc"]]]
+MODIFY_IFS = [[["a", "const7"]], [["c", "get_a"]], [["a", "a_inc"]], [["a", "const7"], ["c", "const7"]]]
 FILLS = [[], [["a", None]], [["a", 0]], [["b", "y"]], [["c", 0]], [["a", 0], ["b", "y"]]]
 NEW_ITEM = {"a": 2, "b": "x"}
 
@@ -181,7 +181,8 @@ def chain_ops():
         ops.append({"op": "modify", "set": s})
     ops += [{"op": "modify_if", "pred": "a_is_none", "set": [["a", "const7"]]},
             {"op": "modify_if", "pred": "a_eq_1", "set": [["c", "get_b"]]},
-            {"op": "modify_if", "pred": "a_eq_1", "set": [["a", "a_inc"]]}]
+            {"op": "modify_if", "pred": "a_eq_1", "set": [["a", "a_inc"]]},
+            {"op": "modify_if", "pred": "a_is_none", "set": [["a", "const7"], ["c", "const7"]]}]
     for kv in ([], [["a", 0]], [["b", "y"]]):
         ops.append({"op": "fill", "kv": kv})
     ops += [{"op": "append", "item": {"a": 1, "b": "x"}, "as": "dict"},
